@@ -97,7 +97,7 @@ def symmetric(rng) -> List[Any]:
 def run(ctx: core.Ctx) -> None:
     ctx.assumptions += ["TLC 1.8 + Json module trusted", "labels: element and charge; bonds: order",
                         "for disconnected graphs the count is the product over components and orbits are per component (component swaps excluded, as documented)",
-                        "the clause 'symmetry pruning during rule application loses no distinct reaction' is decided in the C05 check (same machinery) and reported there"]
+                        "the clause 'symmetry pruning during rule application loses no distinct reaction' uses the rule-application machinery of C05 (C05Cases.tla, claim C11)"]
     q, rng = ctx.quick, ctx.rng
     base = {"NLab": "3", "MaxHc": "0", "MaxOrd": "2", "CanonOnly": "TRUE", "MinN": "1"}
     g4 = core.tlc_generate(ctx, "GraphGen", dict(base, MaxN="4" if not q else "3"), label="graphs<=4" if not q else "graphs<=3")
@@ -134,8 +134,15 @@ def run(ctx: core.Ctx) -> None:
         dd.append({"P": P, "H": H, "strategy": rng.choice(["all", "comp"]), "use_pattern": rng.random() < 0.7,
                    "anchor": rng.random() < 0.6, "use_host": rng.random() < 0.5, "partial": rng.random() < 0.2, "seed": rng.randrange(10 ** 9)})
     core.run_stage(ctx, S("dedup-on-search-results", dedup_case, dd, "something was pruned"))
+    # symmetry pruning during rule application versus applying the rule at every raw match (machinery of C05)
+    from harness.props import c05
+    st = c05.S("pruned-versus-every-raw-match", c05.make_inputs(rng, "C11", 1 if q else 3, 40 if q else 300, 150 if q else 4000))
+    core.run_stage(ctx, st)
 
 
 def replay(ctx, data):
+    if data["stage"].startswith("pruned-versus"):
+        from harness.props import c05
+        return core.run_stage(ctx, c05.S(data["stage"], [data["input"]]))
     fn = dedup_case if data["stage"].startswith("dedup") else aut_case
     core.run_stage(ctx, S(data["stage"], fn, [data["input"]], ""))
